@@ -1,10 +1,24 @@
 import RegexVerif.Sexp
 import RegexVerif.Model.Escape
+import RegexVerif.Model.EscapeParse
 
 namespace RegexVerif.Driver
 open RegexVerif Sexp
 
-/-- `(c19 escape|unescape (runes…) (print (…)) (word (…)))` -/
+/-- option set of a parse request: `(x ecma re2 u)` as 0/1 -/
+def c19Opts (e : Sexp) : Option EscapeParse.ParseOpts :=
+  match e.nats? with
+  | some [x, ec, r2, u] => some { x := x != 0, ecma := ec != 0, re2 := r2 != 0, u := u != 0 }
+  | _ => none
+
+def c19Why : EscapeParse.Why → String
+  | .construct => "construct"
+  | .nonlit => "nonlit"
+  | .error => "error"
+
+/-- `(c19 escape|unescape (runes…) (print (…)) (word (…)))`;
+    `(c19 parse (runes…) (word (…)) (opts (x ecma re2 u) …))` answers `(ok r₁ r₂ …)`, one result per option
+    set: `(lit (runes…))` or `(none construct|nonlit|error|fuel)` (`EscapeParse.parseWhy`) -/
 def handleC19 (args : List Sexp) : String :=
   match args with
   | mode :: runes :: rest =>
@@ -20,6 +34,15 @@ def handleC19 (args : List Sexp) : String :=
         match Escape.unescape isWord rs with
         | some out => toString (mk "ok" [ofNats out])
         | none => "(err)"
+      else if m == "parse" then
+        match ((lookup "opts" rest).getD []).mapM c19Opts with
+        | some os =>
+          toString (mk "ok" (os.map fun o =>
+            match EscapeParse.parseWhy o isWord rs with
+            | .lit t => mk "lit" [ofNats t]
+            | .stop w => mk "none" [atom (c19Why w)]
+            | .outOfFuel => mk "none" [atom "fuel"]))
+        | none => "(bad-op)"
       else "(bad-op)"
     | _, _ => "(bad-op)"
   | _ => "(bad-op)"
